@@ -125,6 +125,27 @@ example : ∃ u, Sat (prSystem 1 [geRow [1] 0] (eqRows [1, -1] 1)) u :=
 example : feasible (prDim [geRow [1] 0] (eqRows [1, -1] 0))
     (prSystem 1 [geRow [1] 0] (eqRows [1, -1] 0)) = false := by decide +kernel
 
+/-- the guarded decrement `x_2' = x_2 − x_1, x_1' ≥ x_1` under the guard `x_1 ≥ 1, x_2 ≥ 0`
+    (rows over `(x_1', x_2', x_1, x_2)`): the size of the decrement is known through the guard only -/
+def guardB : List Con := [geRow [1, 0] (-1), geRow [0, 1] 0]
+def guardA : List Con := eqRows [0, 1, 1, -1] 0 ++ [geRow [1, 0, -1, 0] 0]
+
+-- `u_3 = (0,1,0)`, `u_2 = (1,0)`, `u_1 = (0,1)`: `μ = x_2`
+example : ∃ u, Sat (prSystem 2 guardB guardA) u :=
+  certFeas_sound _ [0, 1, 0, 1, 0, 0, 1] 1 (by decide +kernel)
+example : isRankingB 2 (pairRel 2 guardB guardA) [0, 1, 0] 1 = true := by decide +kernel
+
+/-- on such relations (no inhomogeneous term in `cs_after`) every solution of the encoding puts a
+    total weight `u_2·d_B ≤ −1` on the guard rows: the guard multipliers are non-zero and the
+    term `u_2·d_B` of `le_out` is indispensable (a version of `fill_constraint_system_PR` without
+    it answers `false` on `guardB / guardA` although `μ = x_2` is a ranking function) -/
+theorem pr_guard_term_needed (n : Nat) (csB csA : List Con)
+    (h0 : (consts csA).all (· == 0) = true) (u : Val) (hs : Sat (prSystem n csB csA) u) :
+    dot (consts csB) (fun i => u (i + csA.length)) ≤ -1 :=
+  prSystem_guard_term n csB csA h0 u hs
+
+example : (consts guardA).all (· == 0) = true := by decide
+
 /-- **Podelski–Rybalchenko, single-relation form** (`fill_constraint_system_PR_original`):
     `μ = −λ_2ᵀA'` decreases by at least `1` and is bounded from below by `−λ_1·b`. -/
 theorem pr_original_sound (n : Nat) (cs : List Con) (hwf : WF (2*n) cs) (u : Val)
